@@ -430,6 +430,22 @@ def main(ck):
             lead = LEAD[k % len(LEAD)]
             cases.append({"hex": (lead + body).hex(), "mode": "plain", "origin": "lead"})
             cases.append({"hex": (lead + rng.choice([b"<?php ", b"<?php\n", b"<b>x</b><?php "]) + body).hex(), "mode": "template", "origin": "lead"})
+        # every keyword / literal constant of the regenerated token table in other spellings (upper case, capitalised,
+        # alternating): the token text must be the source slice whatever the word lexes as
+        K = tbl["consts"]
+        words = sorted(set(bytes.fromhex(hx) for ty, hx in tbl["defs"]
+                           if (K["KEYWORD_START"] < ty < K["KEYWORD_END"] or K["VALUE_START"] < ty < K["VALUE_END"])
+                           and bytes.fromhex(hx).isalpha()))
+        ck.cov["keywords_case_varied"] = len(words)
+        for wi, w in enumerate(words):
+            alt = bytes(ch - 32 if k % 2 == 0 else ch for k, ch in enumerate(w.lower()))
+            for sp in (w.upper(), w[:1].upper() + w[1:], alt):
+                if sp == w:
+                    continue
+                ctxs = [sp, sp + b" ($a) { }", b"$x = " + sp + b";", b"f(" + sp + b", 1)\n" + sp + b" $y"]
+                for ci, ctx in enumerate(ctxs if not quick else [ctxs[0], ctxs[1 + (wi + len(sp)) % 3]]):
+                    cases.append({"hex": ctx.hex(), "mode": "plain", "origin": "kwcase"})
+                    cases.append({"hex": (b"<?php " + ctx).hex(), "mode": "template", "origin": "kwcase"})
         # corpus files, their prefixes and mutants
         files = corpus_files()
         ck.cov["corpus_files_total"] = len(files)
